@@ -223,6 +223,9 @@ class Gen:
             if mode == 'canvas' and r.random() < 0.4:
                 e = [b'robsddir', q(R + b'/d2')]
                 pick = 'canvas-robsddir'
+                cd = [i for i, x in enumerate(ents) if x[0] == b'canvas-dir']
+                if cd and r.random() < 0.7:
+                    pos = r.randint(0, cd[0])
             ents.insert(pos, e)
         elif pick == 'wrong-type':
             i = r.randrange(len(ents))
